@@ -740,7 +740,9 @@ def pattern_i32_to_i32(context, tree, c0):
 
 
 @isa.pattern("reg", "I8TOI16(reg)", size=4)
+@isa.pattern("reg", "I8TOU16(reg)", size=4)
 @isa.pattern("reg", "I8TOI32(reg)", size=4)
+@isa.pattern("reg", "I8TOU32(reg)", size=4)
 def pattern_i8_to_i32(context, tree, c0):
     context.emit(Slli(c0, c0, 24))
     context.emit(Srai(c0, c0, 24))
@@ -748,13 +750,13 @@ def pattern_i8_to_i32(context, tree, c0):
 
 
 @isa.pattern("reg", "I16TOI32(reg)", size=4)
+@isa.pattern("reg", "I16TOU32(reg)", size=4)
 def pattern_i16_to_i32(context, tree, c0):
     context.emit(Slli(c0, c0, 16))
     context.emit(Srai(c0, c0, 16))
     return c0
 
 
-@isa.pattern("reg", "I8TOU16(reg)", size=4)
 @isa.pattern("reg", "U8TOU16(reg)", size=4)
 @isa.pattern("reg", "U8TOI16(reg)", size=4)
 def pattern_8_to_16(context, tree, c0):
@@ -763,7 +765,6 @@ def pattern_8_to_16(context, tree, c0):
     return c0
 
 
-@isa.pattern("reg", "I8TOU32(reg)", size=4)
 @isa.pattern("reg", "U8TOU32(reg)", size=4)
 @isa.pattern("reg", "U8TOI32(reg)", size=4)
 def pattern_8_to_32(context, tree, c0):
@@ -772,7 +773,6 @@ def pattern_8_to_32(context, tree, c0):
     return c0
 
 
-@isa.pattern("reg", "I16TOU32(reg)", size=4)
 @isa.pattern("reg", "U16TOU32(reg)", size=4)
 @isa.pattern("reg", "U16TOI32(reg)", size=4)
 def pattern_16_to_32(context, tree, c0):
